@@ -324,8 +324,15 @@ func (r *AzureSharedResource) Start(ctx context.Context) (err error) {
 
 				// attempt to allocate the partition
 				id := fmt.Sprint(uuid.New())
+				issued := time.Now()
 				leaseTime := r.leaseManager.leasePartition(ctx, id, index)
 				if leaseTime == 0 {
+					continue Loop
+				}
+
+				// NOTE: the lease started no later than when it was requested, so count the partition only for what remains of it
+				leaseTime -= time.Since(issued)
+				if leaseTime <= 0 {
 					continue Loop
 				}
 
